@@ -278,15 +278,14 @@ def run(tier, seed, replay_file):
     jobs = []
     jobs.append(("relay-cex", relay_cex, ("relay-cex", primary)))
     jobs.append(("toy-c2s", design, ("toy-c2s", dict(toy, Writers='{"Ac"}'))))
-    jobs.append(("toy-s2c", design, ("toy-s2c", dict(toy, Writers='{"As"}', AllowSeg="TRUE", Depth=0))))
+    jobs.append(("toy-s2c", design, ("toy-s2c", dict(toy, Writers='{"As"}', AllowSeg="TRUE", Depth=0, PSizes="{0,3}" if not big else toy["PSizes"]))))
     jobs.append(("leftover-cex", leftover_cex, ("leftover-cex", primary)))
     for kind in KINDS:
-        jobs.append((kind, graph, (kind, primary, kind, None if big else 1200)))
+        jobs.append((kind, graph, (kind, primary, kind, None if big else 900)))
     toy_relay = dict(toy, Two="TRUE", Paths='{"plain","t2t"}', PSizes="{0,3}", Pads="{0,1}", WSizes="{1,6,7}", RSizes="{1,7}")
     if not big:
         other = CONFIGS[(seed + 1 + seed // len(CONFIGS)) % len(CONFIGS)]
-        for kind in ("handshake", "buf-s2c"):
-            jobs.append((kind + "@2", graph, (kind + "@2", other, kind, 500)))
+        jobs.append(("handshake@2", graph, ("handshake@2", other, "handshake", 500)))
         jobs.append(("simulate", simulate, ("simulate", CONFIGS[(seed + 3) % len(CONFIGS)], 60, 150)))
     else:
         jobs.append(("toy-relay-up", design, ("toy-relay-up", dict(toy_relay, Writers='{"Ac"}'))))
